@@ -146,6 +146,17 @@ class Weaver:
             # drop supertrait-like where clauses is not needed for types; nothing else changes
             pass
         line0 = _line_of(s, it.start)
+        # E3: of the dropped attributes only the derives Verus understands are re-emitted
+        keep = []
+        for a in it.attrs:
+            mm = re.match(r'^#\s*\[\s*derive\s*\((.*)\)\s*\]$', a, re.S)
+            if mm:
+                for d in mm.group(1).split(','):
+                    d = d.strip()
+                    if d in ('Copy', 'Clone', 'PartialEq', 'Eq') and d not in keep:
+                        keep.append(d)
+        if keep and 'noderive' not in opts:
+            self.emit('#[derive(%s)]\n' % ', '.join(keep), {'k': 'repo', 'file': rel, 'line': line0, 'item': path, 'what': 'derive subset'})
         for pre in opts.get('attr', []):
             self.emit(pre + '\n', {'k': 'ghost', 'what': 'attr'})
         self.emit(txt + '\n', {'k': 'repo', 'file': rel, 'line': line0, 'item': path})
@@ -486,6 +497,7 @@ VERIFICATION_MESSAGES = [
     'loop invariant not satisfied', 'recommendation not met', 'unreachable', 'cannot prove termination',
     'could not prove termination', 'possible overflow', 'loop ensures not satisfied', 'failed this',
     'possible truncation', 'constructor precondition', 'requirement not satisfied', 'not satisfied',
+    'precondition not met', 'postcondition not met', 'might panic', 'cannot show', 'failed to prove',
 ]
 UNDECIDED_MESSAGES = ['Resource limit (rlimit) exceeded', 'rlimit', 'timed out', 'SMT solver']
 
@@ -608,7 +620,7 @@ def classify(diag, linemap):
     elif r:
         kind = {'possible arithmetic underflow/overflow': 'overflow', 'possible division by zero': 'div0',
                 'precondition not satisfied': 'pre-of-callee', 'index out of bounds': 'bounds',
-                'assertion failed': 'assert'}.get(msg, re.sub(r'\W+', '-', msg)[:30])
+                'assertion failed': 'assert', 'precondition not met: index in bounds for this access': 'bounds'}.get(msg, re.sub(r'\W+', '-', msg)[:30])
         ob.update(kind=kind, fn=r.get('fn'), at='%s:%d' % (r['file'], r['line']))
         callee = ''
         for sp in sec:
